@@ -161,7 +161,9 @@ where
     // course means we have off-by-1 errors, so the correct way is to trim
     // leading zeros, and then calculate the exponent as the offset.
     let digits = &buffer[integer_cursor..fraction_cursor];
-    let zero_count = ltrim_char_count(digits, b'0');
+    // NOTE: a zero (or a value too small for a single digit) only has zero digits:
+    // the last one is then the significant digit.
+    let zero_count = ltrim_char_count(digits, b'0').min(digits.len() - 1);
     let sci_exp: i32 = initial_cursor as i32 - integer_cursor as i32 - zero_count as i32 - 1;
     write_float!(
         float,
